@@ -297,6 +297,10 @@ func GenScenario(prop string, seed uint64, tier string) *Scenario {
 		nOps = g.Range(10, 40)
 	}
 	for len(s.ops) < nOps {
+		if g.Intn(25) == 0 {
+			s.emitMotif(prop)
+			continue
+		}
 		k := opKinds[g.Pick(ws)]
 		s.emit(k, prop)
 	}
@@ -323,6 +327,63 @@ func GenScenario(prop string, seed uint64, tier string) *Scenario {
 	}
 	sc.Ops = s.ops
 	return sc
+}
+
+// emitMotif emits a short op pattern that sets up a structurally interesting situation which
+// independent random ops reach only rarely (each op is an ordinary op; nothing is special-cased
+// at run time).
+func (s *genState) emitMotif(prop string) {
+	g := s.g
+	if s.cfg.InMemory {
+		return
+	}
+	ti := g.Intn(len(s.trees))
+	switch g.Intn(4) {
+	case 0:
+		// persist; delete the top-layer key (shrink through a key-less root onto a persisted
+		// child); capture a version; modify below
+		s.emitPersist(ti, prop)
+		t := s.trees[ti]
+		if len(t.model) == 0 {
+			return
+		}
+		best, bk := -1, 0
+		for kk := range t.model {
+			if l := s.layerOf(kk); l > best || (l == best && kk < bk) {
+				best, bk = l, kk
+			}
+		}
+		s.ops = append(s.ops, Op{K: "del", T: ti, Key: bk, Val: t.model[bk]})
+		delete(t.model, bk)
+		t.dirty = true
+		s.emit([]string{"clone", "fork", "cursor", "clone"}[g.Intn(4)], prop)
+		for i := 0; i < 1+g.Intn(3); i++ {
+			s.emit("ins", prop)
+		}
+	case 1:
+		// two trees loaded from one root (through the shared cache); modify one
+		s.emitPersist(ti, prop)
+		s.emit("reload", prop)
+		s.emit("reload", prop)
+		s.emit("ins", prop)
+		s.emit("del", prop)
+	case 2:
+		// re-create persisted content: insert then delete the same key, persist again
+		s.emitPersist(ti, prop)
+		t := s.trees[ti]
+		k := g.Intn(s.cfg.U)
+		if _, ok := t.model[k]; ok {
+			return
+		}
+		s.ops = append(s.ops, Op{K: "ins", T: ti, Key: k, Val: 3}, Op{K: "del", T: ti, Key: k, Val: 3})
+		t.dirty = true
+		s.emitPersist(ti, prop)
+	default:
+		// clone of a clone, then modify the inner clone
+		s.emit("clone", prop)
+		s.emit("fork", prop)
+		s.emit("ins", prop)
+	}
 }
 
 func (s *genState) emitBulk(ti int, n int) {
